@@ -18,7 +18,7 @@ def space(tier, seed):
     rows = [[], [k], [None], [k, m], [m, k + ';' + m], [k, None], [m, k, k + ';' + m], [None, k + ';' + m, m]]
     wheres = [None, ('cmp', '==', F('a', 1), ('lit', k)), ('cmp', '>', ('NR',), ('int', 1))]
     targets = [F('a', 1), F('a', 2, 'a[N]'), F('a', 3)]
-    rhs = [('lit', 'Z'), F('a', 2), F('a', 1), ('cat', F('a', 1), F('a', 2)), ('NR',), ('NU',)]
+    rhs = [('lit', 'Z$&$$'), F('a', 2), F('a', 1), ('cat', F('a', 1), F('a', 2)), ('NR',), ('NU',)]
     groups = []
 
     def lists(tg, rh, maxn):
@@ -43,8 +43,10 @@ def space(tier, seed):
     jtargets = [F('a', 1), F('a', 2)]
     jrhs = [F('b', 2), F('a', 1), ('lit', 'Z'), ('NU',), ('bNR',)]
     for al in lists(jtargets, jrhs, 2):
-        for w in (None, ('cmp', '==', F('b', 2), ('lit', 'p'))):
+        for w in (None, ('cmp', '==', F('b', 2), ('lit', 'p')), ('like', F('b', 2), 'p%'), ('cmp', '>', ('len', F('b', 2)), ('int', 0))):
             for jt in ('INNER JOIN', 'LEFT JOIN'):
+                if jt == 'LEFT JOIN' and w is not None and w[0] != 'cmp':
+                    continue      # a b-field of an unmatched LEFT JOIN row is None: dereferencing it fails by design
                 qs.append(('join', {'kind': 'update', 'assign': al, 'where': w, 'join': {'type': jt, 'keys': [(F('a', 1), F('b', 1))]}}))
     nrows = [[k, m], [m, k], [k, None]]
     jrows = [[k], [m], [k, m], [m, k + ';' + m], []]
